@@ -23,15 +23,16 @@ type lockCtx struct {
 	cx *Ctx
 	mu *types.Var
 	// generalisation to other exclusive regions (the lossy buffer's busy flag): when set these replace the mutex ops
-	isRel  func(ssa.Instruction) bool
-	isTry  func(ssa.Instruction) bool
-	plain  bool // no mutex-specific exceptions / helper summaries
-	funcs  []*ssa.Function
-	sites  map[*ssa.Function][]ssa.Instruction // synchronous call / hand-over sites
-	escape map[*ssa.Function]string            // function value used in a way that loses the context
-	entry  map[*ssa.Function]bool
-	blkIn  map[*ssa.BasicBlock]bool
-	poc    map[*ssa.Function]map[int]int // paramOnlyCalled memo: 1 yes 2 no 3 in progress
+	isRel      func(ssa.Instruction) bool
+	isTry      func(ssa.Instruction) bool
+	drainTasks map[*ssa.Function]bool
+	plain      bool // no mutex-specific exceptions / helper summaries
+	funcs      []*ssa.Function
+	sites      map[*ssa.Function][]ssa.Instruction // synchronous call / hand-over sites
+	escape     map[*ssa.Function]string            // function value used in a way that loses the context
+	entry      map[*ssa.Function]bool
+	blkIn      map[*ssa.BasicBlock]bool
+	poc        map[*ssa.Function]map[int]int // paramOnlyCalled memo: 1 yes 2 no 3 in progress
 }
 
 var lockCtxCache = map[*Program]*lockCtx{}
@@ -519,6 +520,26 @@ func (lc *lockCtx) flow(fn *ssa.Function) {
 					if neg {
 						trueIdx = 1
 					}
+					if ph, isPhi := c.(*ssa.Phi); isPhi && si == trueIdx {
+						// a short-circuit conjunction evaluated as a value (a switch case `flag.Load() == 0 && flag.CAS(0,1)`):
+						// true only when its last operand - the try - succeeded
+						tries, other := 0, false
+						for _, e := range ph.Edges {
+							if k, isK := e.(*ssa.Const); isK {
+								if bv, isB := constBool(k); isB && !bv {
+									continue
+								}
+							}
+							if call, isCall := e.(*ssa.Call); isCall && ((lc.plain && lc.isTry(call)) || (!lc.plain && mutexOp(call, lc.mu, "TryLock"))) {
+								tries++
+								continue
+							}
+							other = true
+						}
+						if tries > 0 && !other {
+							out = true
+						}
+					}
 					if call, ok := c.(*ssa.Call); ok {
 						if lc.plain {
 							if lc.isTry(call) && si == trueIdx {
@@ -529,7 +550,7 @@ func (lc *lockCtx) flow(fn *ssa.Function) {
 						}
 						// token hand-off (named exception): in drainBuffers the executor task that wins the
 						// token passed in by scheduleDrainBuffers runs with the scheduler's lock
-						if !lc.plain && si == trueIdx && cname(fn) == "drainBuffers" {
+						if !lc.plain && si == trueIdx && (cname(fn) == "drainBuffers" || lc.isDrainTask(fn)) {
 							if tok, isClaim := tokenClaim(call); isClaim {
 								if _, isParam := rootOf(tok).(*ssa.Parameter); isParam {
 									out = true
@@ -785,7 +806,6 @@ func tryMethod(fn *ssa.Function, inner []*types.Var, depth int) bool {
 	return ok && n > 0
 }
 
-
 // usesThroughConv: the uses of a function value, looking through conversions to a named function type
 // (type evictFunc func(...); f(evictFunc(c.evictNode))): each use with the value it sees.
 type convUse struct {
@@ -804,7 +824,6 @@ func usesThroughConv(v ssa.Value) []convUse {
 	}
 	return out
 }
-
 
 // fieldOnlyCalled: the function-typed field f of the module struct type behind t is, everywhere in the module, only
 // stored into and invoked (never copied out, compared, passed on), and values of that struct type stay inside the call
@@ -920,3 +939,38 @@ func (lc *lockCtx) fieldOnlyCalled(f *types.Var, t types.Type) bool {
 }
 
 var fieldOnlyCalledMemo = map[*types.Var]bool{}
+
+// isDrainTask: fn is (or is directly called by) the task that scheduleDrainBuffers hands to the executor - a closure,
+// the function that closure calls, or the method behind a method value (handoff.run). That task and the scheduler share
+// the hand-off token; whoever claims it owns the lock the scheduler took.
+func (lc *lockCtx) isDrainTask(fn *ssa.Function) bool {
+	if lc.drainTasks == nil {
+		lc.drainTasks = map[*ssa.Function]bool{}
+		sched := lc.cx.P.Func("", "cache", "scheduleDrainBuffers")
+		ex := lc.cx.P.Field("", "cache", "executor")
+		if sched != nil && ex != nil {
+			allInstrs(sched, func(in ssa.Instruction) {
+				cc := callCommon(in)
+				if cc == nil || cc.IsInvoke() || cc.StaticCallee() != nil || !sameField(fieldOf(cc.Value), ex) || len(cc.Args) != 1 {
+					return
+				}
+				add := func(f *ssa.Function) {
+					if f == nil {
+						return
+					}
+					lc.drainTasks[origin(f)] = true
+					allInstrs(f, func(x ssa.Instruction) {
+						if c := calleeOf(x); c != nil && c.Pkg != nil && strings.HasPrefix(c.Pkg.Pkg.Path(), modPath) {
+							lc.drainTasks[origin(c)] = true
+						}
+					})
+				}
+				add(closureOf(cc.Args[0]))
+				for _, f := range funcValuesOf(cc.Args[0], 0, map[ssa.Value]bool{}, nil) {
+					add(f)
+				}
+			})
+		}
+	}
+	return lc.drainTasks[origin(fn)]
+}
